@@ -983,3 +983,11 @@ def x32(cx: Cx, ob: Ob) -> None:
     from .c13 import check_load_wrappers
 
     check_load_wrappers(cx, ob)
+
+
+@obligation("C14-X4", "'read back to the same converter': every load_* builds its converter through the strict constructor, which must reject exactly the record sets in which a name is claimed by two records - both duplicate detectors compare by exact equality over all pairs of DIFFERENT records (shared with C04-D1/D2); what was written from a valid converter must not be refused on reading", floor=4)
+def x4(cx: Cx, ob: Ob) -> None:
+    from .c04 import d1 as c04_order, d2 as c04_matrix
+
+    c04_order(cx, ob)
+    c04_matrix(cx, ob)
